@@ -1,7 +1,7 @@
 (* C14 — base64url codec is a faithful, canonical round trip.  Statements only. *)
 From Coq Require Import ZArith List Bool String.
 Open Scope string_scope.
-From PW Require Import Model.Base Model.Base64 Proofs.Base64Proofs.
+From PW Require Import Model.Base Model.Base64 Proofs.Base64Proofs Proofs.Base64More.
 Import ListNotations.
 Open Scope Z_scope.
 Open Scope list_scope.
@@ -22,6 +22,44 @@ Theorem C14_injective : forall b1 b2 : bytes, bytes_ok b1 = true -> bytes_ok b2 
   b64url_enc b1 = b64url_enc b2 -> b1 = b2.
 Proof. exact b64_injective. Qed.
 Print Assumptions C14_injective.
+
+(* the padding arithmetic of every length class: exactly ceil(4n/3) characters, hence never a
+   length of 1 mod 4 (the one length class no byte string encodes to) *)
+Theorem C14_length : forall b : bytes, len (b64url_enc b) = (4 * len b + 2) / 3.
+Proof. exact b64_length. Qed.
+Print Assumptions C14_length.
+
+Theorem C14_length_class : forall b : bytes, (len (b64url_enc b)) mod 4 <> 1.
+Proof. exact b64_length_mod4. Qed.
+Print Assumptions C14_length_class.
+
+(* whatever TEXT is handed to the decoder, a result is a byte string (no value outside 0..255) *)
+Theorem C14_decoder_yields_bytes : forall (s : pystr) (b : bytes),
+  b64url_dec s = Ok b -> bytes_ok b = true.
+Proof. exact b64_dec_bytes. Qed.
+Print Assumptions C14_decoder_yields_bytes.
+
+(* Why "canonical" needs the ENCODER: the CPython decoder is lenient.  An ASCII character of
+   neither alphabet (other than '=') is skipped wherever it stands, and '+' '/' decode as '-' '_',
+   so decoding is many-to-one; the verifiers therefore compare `id` with the encoding of rawId
+   (C14_injective), never the decodings. *)
+Theorem C14_decoder_skips_foreign_characters : forall (l1 : pystr) (c : Z) (l2 : pystr),
+  0 <= c < 128 -> dec_char c = None -> c <> 61 ->
+  b64url_dec (l1 ++ c :: l2) = b64url_dec (l1 ++ l2).
+Proof. exact b64_dec_skips_junk. Qed.
+Print Assumptions C14_decoder_skips_foreign_characters.
+
+Theorem C14_decoder_accepts_either_alphabet : forall s : pystr,
+  b64url_dec (map to_std s) = b64url_dec s.
+Proof. exact b64_dec_either_alphabet. Qed.
+Print Assumptions C14_decoder_accepts_either_alphabet.
+
+Example C14_decoder_many_to_one :
+  b64url_dec (s2l "AP8Q_gM") = Ok [0; 255; 16; 254; 3] /\
+  b64url_dec (s2l "AP8Q/gM") = Ok [0; 255; 16; 254; 3] /\
+  b64url_dec (s2l "AP8Q!_g M") = Ok [0; 255; 16; 254; 3] /\
+  dec_char 33 = None /\ dec_char 32 = None.
+Proof. vm_compute. repeat split. Qed.
 
 (* non-vacuity: a concrete non-trivial byte string meets the hypothesis and round-trips *)
 Example C14_example :
